@@ -157,6 +157,52 @@ theorem C04_exactly_once_all_histories (ops : List Op) (script : Aid → List Ac
   ⟨(C04_never_twice_only_members_in_order script arg _ t (C02_sets_nodup_all_histories ops t)).2.1,
    fun a ha hend => C04_survivor_invoked_exactly_once script arg _ t (C02_sets_nodup_all_histories ops t) a ha hend⟩
 
+/-- **Never twice, only members, never the newly created, survivors exactly once — for every visiting order.**  The
+    statements above hold for *any* reference list that is a permutation of the snapshot, walked from any world `w'`
+    in which the same agents are alive (for `shuffle_do`: `w` with the generator advanced): nobody is invoked twice,
+    everybody invoked was a member at call start, nobody created later is invoked, and every member still alive when
+    the walk ends was invoked exactly once.  Instances: `shuffle_do` (the shuffled snapshot) and `GroupBy.do` (the
+    snapshot regrouped by key), whose final states are exactly these walks. -/
+theorem C04_every_visiting_order_never_twice_survivors_once (script : Aid → List Action) (arg : Nat) (w w' : World)
+    (t : Target) (refs : List Aid) (hn : (rawMembers w t).Nodup) (hp : refs.Perm (members w t))
+    (hlen : w'.info.length = w.info.length) :
+    (visited script arg w' refs).Nodup ∧
+    (∀ a ∈ visited script arg w' refs, a ∈ members w t) ∧
+    (∀ a, w.info.length ≤ a → a ∉ visited script arg w' refs) ∧
+    (∀ a ∈ members w t, alive (walk script arg w' refs) a = true → (visited script arg w' refs).count a = 1) := by
+  have hs := visited_sublist script arg w' refs
+  have hnd : refs.Nodup := hp.nodup_iff.mpr (hn.sublist (members_sublist w t))
+  have hlt : ∀ x ∈ refs, x < w'.info.length := fun x hx => by rw [hlen]; exact members_lt w t x (hp.subset hx)
+  refine ⟨hnd.sublist hs, fun a ha => hp.subset (hs.subset ha), fun a hnew ha => ?_, fun a ha hend => ?_⟩
+  · have hlt' : a < w'.info.length := hlt a (hs.subset ha)
+    rw [hlen] at hlt'
+    exact absurd hlt' (Nat.not_lt.mpr hnew)
+  · have hmem := visited_of_alive_end script arg w' refs hlt a (hp.symm.subset ha) hend
+    have h1 := List.nodup_iff_count.mp (hnd.sublist hs) a
+    have h2 := List.count_pos_iff.mpr hmem
+    omega
+
+/-- …instantiated: one `shuffle_do` and one `GroupBy.do` invoke nobody twice, only members of the snapshot, and every
+    member that is alive when the call returns exactly once (`order` = the agents invoked, in order). -/
+theorem C04_shuffle_do_and_groupby_do_exactly_once (script : Aid → List Action) (arg : Nat) (key : Aid → Nat) (w : World)
+    (t : Target) (hn : (rawMembers w t).Nodup) :
+    (let g := (Rng.shuffle (members w t) (rngOf w t)).2
+     let order := visited script arg (setRng w (t.model w) g) (Rng.shuffle (members w t) (rngOf w t)).1
+     order.Nodup ∧ (∀ a ∈ order, a ∈ members w t) ∧
+     ∀ a ∈ members w t, alive (shuffleDo script arg w t) a = true → order.count a = 1) ∧
+    (let order := visited script arg w ((groupBy key (members w t)).map (·.2)).flatten
+     order.Nodup ∧ (∀ a ∈ order, a ∈ members w t) ∧
+     ∀ a ∈ members w t, alive (groupDo script arg key w t) a = true → order.count a = 1) := by
+  constructor
+  · have h := C04_every_visiting_order_never_twice_survivors_once script arg w
+      (setRng w (t.model w) (Rng.shuffle (members w t) (rngOf w t)).2) t (Rng.shuffle (members w t) (rngOf w t)).1 hn
+      (Rng.shuffle_perm _ _) (by rw [setRng_info])
+    exact ⟨h.1, h.2.1, h.2.2.2⟩
+  · have h := C04_every_visiting_order_never_twice_survivors_once script arg w w t
+      ((groupBy key (members w t)).map (·.2)).flatten hn (groupBy_flatten_perm key _) rfl
+    rw [(C04_groupby_do_is_regrouped_walk script arg key w t).1]
+    exact ⟨h.1, h.2.1, h.2.2.2⟩
+
 /-! ### callbacks that raise, callbacks that edit the activated set -/
 
 /-- **A callback that raises ends the call at the raiser.**  Whatever the callbacks do and whichever of them raise,
